@@ -162,4 +162,10 @@ def namespace_coherence(g):
   if both:
     out.append("{} carried by a line while other lines still refer to a "
                "placeholder of that name".format(both))
+  for l in extra:
+    if not observe.is_virtual(l):
+      n = observe.line_name(l)
+      if n is not None and n in real and real[n] is not l:
+        out.append("lines of the Gfa still refer to a replaced line that "
+                   "carried {!r}".format(n))
   return out
